@@ -574,3 +574,202 @@ def c04_transition(ctx: Ctx) -> List[Violation]:
         elif dg > 1e-12:
             out.append(Violation("C04", "gain_without_charge_event", (cls, pb), f"vehicle {vid} gained {dg} without a charge event"))
     return out
+
+
+# ---------------------------------------------------------------------------------------------------
+# C05 -- energy and money conserved between vehicles and stations (per transition; sums follow by induction)
+
+
+def expected_tariffs(ctx: Ctx) -> Dict[Tuple[str, str], float]:
+    """tariff of every (station, plug) during this step: the pre-state's, with this step's price rows applied"""
+    t = {(sid, cid): cs.price_per_kwh for sid, st in ctx.pre.stations.items() for cid, cs in st.state.items()}
+    for e in ctx.events:
+        if e[0] == "P":
+            row = ctx.world.price_rows[e[1]]
+            key = (row["station_id"], row["charger_id"])
+            if key in t:
+                t[key] = float(row["price_kwh"])
+    return t
+
+
+def c05_transition(ctx: Ctx) -> List[Violation]:
+    out: List[Violation] = []
+    tariffs = expected_tariffs(ctx)
+    for key, want in tariffs.items():
+        st = ctx.post.stations.get(key[0])
+        have = st.state[key[1]].price_per_kwh if st is not None and key[1] in st.state else None
+        if have is None or abs(have - want) > 1e-12:
+            out.append(Violation("C05", "tariff_table", (key[1],), f"station {key[0]} plug {key[1]}: tariff {have}, expected {want}"))
+    charges = ctx.of_type("VEHICLE_CHARGE_EVENT")
+    pickups = ctx.of_type("PICKUP_REQUEST_EVENT")
+    by_vehicle: Dict[str, list] = {}
+    by_station: Dict[str, list] = {}
+    for e in charges:
+        by_vehicle.setdefault(e["vehicle_id"], []).append(e)
+        by_station.setdefault(e["station_id"], []).append(e)
+        want = tariffs.get((e["station_id"], e["charger_id"]))
+        if want is None:
+            out.append(Violation("C05", "unknown_plug", (), f"charge event names plug {e['charger_id']} at {e['station_id']} which is not installed"))
+        elif abs(float(e["price"]) - float(e["energy"]) * want) > 1e-9:
+            out.append(Violation("C05", "price_not_tariff", (e["charger_id"], e["vehicle_state"]), f"vehicle {e['vehicle_id']} paid {e['price']} for {e['energy']} at tariff {want} ({e['station_id']}/{e['charger_id']})"))
+        v = ctx.post.vehicles.get(e["vehicle_id"])
+        if v is not None:
+            s = v.vehicle_state
+            n = s.__class__.__name__
+            where = None
+            if n == "ChargingStation":
+                where = s.station_id
+            elif n == "ChargingBase":
+                b = ctx.post.bases.get(s.base_id)
+                where = b.station_id if b is not None else None
+            if where is not None and where != e["station_id"]:
+                out.append(Violation("C05", "wrong_station_named", (n,), f"vehicle {v.id} charges at {where} but the event names {e['station_id']}"))
+            ctx.cov[f"c05:charge:{n}:{e['charger_id']}"] += 1
+            if want:
+                ctx.cov["c05:charge_at_nonzero_tariff"] += 1
+    for vid, b in ctx.post.vehicles.items():
+        a = ctx.pre.vehicles.get(vid)
+        if a is None:
+            continue
+        fares = sum(float(p["price"]) for p in pickups if p["vehicle_id"] == vid)
+        paid = sum(float(e["price"]) for e in by_vehicle.get(vid, []))
+        d = b.balance - a.balance
+        if abs(d - (fares - paid)) > 1e-9:
+            out.append(Violation("C05", "vehicle_balance", (sname(b),), f"vehicle {vid}: balance changed by {d}, fares {fares} - charging payments {paid}"))
+        if fares:
+            ctx.cov["c05:fare"] += 1
+        for et in a.energy.keys():
+            dg = b.energy_gained[et] - a.energy_gained[et]
+            ev = sum(float(e["energy"]) for e in by_vehicle.get(vid, []) if e["energy_units"] == et.units)
+            if abs(dg - ev) > 1e-9:
+                out.append(Violation("C05", "vehicle_gained", (sname(b),), f"vehicle {vid}: energy_gained changed by {dg}, charge events say {ev}"))
+    for sid, b in ctx.post.stations.items():
+        a = ctx.pre.stations.get(sid)
+        if a is None:
+            continue
+        got = sum(float(e["price"]) for e in by_station.get(sid, []))
+        d = b.balance - a.balance
+        if abs(d - got) > 1e-9:
+            out.append(Violation("C05", "station_balance", (), f"station {sid}: balance changed by {d}, payments made there {got}"))
+        for et in a.energy_dispensed.keys():
+            dd = b.energy_dispensed[et] - a.energy_dispensed[et]
+            ev = sum(float(e["energy"]) for e in by_station.get(sid, []) if e["energy_units"] == et.units)
+            if abs(dd - ev) > 1e-9:
+                out.append(Violation("C05", "station_dispensed", (et.name,), f"station {sid}: energy_dispensed[{et.name}] changed by {dd}, charge events there say {ev}"))
+    # fleet-wide, per energy type (follows from the above; checked anyway)
+    from nrel.hive.model.energy.energytype import EnergyType
+
+    for et in EnergyType:
+        g = sum(v.energy_gained.get(et, 0.0) - ctx.pre.vehicles[vid].energy_gained.get(et, 0.0) for vid, v in ctx.post.vehicles.items() if vid in ctx.pre.vehicles)
+        dsp = sum(s.energy_dispensed.get(et, 0.0) - ctx.pre.stations[sid].energy_dispensed.get(et, 0.0) for sid, s in ctx.post.stations.items() if sid in ctx.pre.stations)
+        if abs(g - dsp) > 1e-9:
+            out.append(Violation("C05", "fleet_energy", (et.name,), f"{et.name}: vehicles gained {g}, stations dispensed {dsp}"))
+    return out
+
+
+# ---------------------------------------------------------------------------------------------------
+# C19 -- the event log accounts for every state change (on the lines parsed back from event.log)
+
+
+def _hms(s: str):
+    """'H:MM:SS' (possibly 'D day(s), H:MM:SS') -> seconds, or None"""
+    try:
+        days = 0
+        if "day" in s:
+            d, s = s.split(",")
+            days = int(d.split()[0])
+            s = s.strip()
+        h, m, sec = s.split(":")
+        return days * 86400 + int(h) * 3600 + int(m) * 60 + float(sec)
+    except Exception:
+        return None
+
+
+def c19_transition(ctx: Ctx) -> List[Violation]:
+    out: List[Violation] = []
+    rep = ctx.reports
+    lines = getattr(rep, "lines", None)
+    if lines is None:
+        raise RuntimeError("C19 monitor needs a logging world (w_log)")
+    for err in rep.parse_errors:
+        out.append(Violation("C19", "unparseable_line", (), f"event.log line cannot be parsed: {err}"))
+    by_type: Dict[str, list] = {}
+    for ln in lines:
+        by_type.setdefault(ln.get("report_type", "?"), []).append(ln)
+    step = ctx.pre.sim_timestep_duration_seconds
+    timeout = ctx.env.config.sim.request_cancel_time_seconds
+    moves, charges = by_type.get("vehicle_move_event", []), by_type.get("vehicle_charge_event", [])
+    for vid, b in ctx.post.vehicles.items():
+        a = ctx.pre.vehicles.get(vid)
+        if a is None:
+            continue
+        dist = sum(float(m["distance_km"]) for m in moves if m["vehicle_id"] == vid)
+        dodo = b.distance_traveled_km - a.distance_traveled_km
+        if abs(dist - dodo) > 1e-9:
+            out.append(Violation("C19", "move_vs_odometer", (sname(a),), f"vehicle {vid}: move lines sum to {dist} km, odometer grew by {dodo}"))
+        if dodo > 0:
+            ctx.cov["c19:move"] += 1
+            if len([m for m in moves if m["vehicle_id"] == vid]) != 1:
+                out.append(Violation("C19", "move_reported_once", (), f"vehicle {vid} moved, {len([m for m in moves if m['vehicle_id'] == vid])} move lines"))
+        en = sum(float(c["energy"]) for c in charges if c["vehicle_id"] == vid)
+        dg = sum(b.energy_gained[k] - a.energy_gained[k] for k in a.energy_gained.keys())
+        if abs(en - dg) > 1e-9:
+            out.append(Violation("C19", "charge_vs_gained", (sname(b),), f"vehicle {vid}: charge lines sum to {en}, energy_gained grew by {dg}"))
+        lvl = sum(b.energy[k] - a.energy[k] for k in a.energy.keys())
+        if dg > 0:
+            ctx.cov["c19:charge"] += 1
+            n = len([c for c in charges if c["vehicle_id"] == vid])
+            if n != 1:
+                out.append(Violation("C19", "charge_reported_once", (str(n),), f"vehicle {vid} charged in this step, {n} charge lines"))
+    # station load = sum of this step's charge lines there; one line per station
+    loads = by_type.get("station_load_event", [])
+    for sid in ctx.post.stations:
+        mine = [l for l in loads if l["station_id"] == sid]
+        if len(mine) != 1:
+            out.append(Violation("C19", "station_load_lines", (str(len(mine)),), f"station {sid}: {len(mine)} station_load lines in one step"))
+            continue
+        want = sum(float(c["energy"]) for c in charges if c["station_id"] == sid)
+        if abs(float(mine[0]["energy"]) - want) > 1e-9:
+            out.append(Violation("C19", "station_load", (), f"station {sid}: reported load {mine[0]['energy']}, charge lines there sum to {want}"))
+        if want > 0:
+            ctx.cov["c19:station_load_nonzero"] += 1
+    adds, cancels = by_type.get("add_request_event", []), by_type.get("cancel_request_event", [])
+    if rep.stats_delta != (len(adds), len(cancels)):
+        out.append(Violation("C19", "summary_counts", (), f"summary counters moved by {rep.stats_delta}, log has {len(adds)} add and {len(cancels)} cancel lines"))
+    if rep.charge_handler_rows != len(charges):
+        out.append(Violation("C19", "charge_handler", (), f"VehicleChargeEventsHandler stored {rep.charge_handler_rows} rows, log has {len(charges)} charge lines"))
+    pickups, drops = by_type.get("pickup_request_event", []), by_type.get("dropoff_request_event", [])
+    # requests that left the waiting set: exactly one pickup or cancel line
+    released_now = {e[1] for e in ctx.events if e[0] == "R"}
+    gone = (set(ctx.pre.requests) | released_now) - set(ctx.post.requests)
+    for rid in sorted(gone):
+        n = len([p for p in pickups if p["request_id"] == rid]) + len([c for c in cancels if c["request_id"] == rid])
+        if rid in released_now and rid not in ctx.pre.requests and not any(a["request_id"] == rid for a in adds):
+            continue  # never admitted
+        if n != 1:
+            out.append(Violation("C19", "resolution_lines", (str(n),), f"request {rid} left the waiting set with {n} pickup/cancel lines"))
+    for rid in {p["request_id"] for p in pickups} | {c["request_id"] for c in cancels}:
+        if rid not in gone:
+            out.append(Violation("C19", "resolution_without_change", (), f"pickup/cancel line for {rid} but it did not leave the waiting set"))
+    for e in released_now:
+        if len([a for a in adds if a["request_id"] == e]) != (1 if (e in ctx.post.requests or e in gone) else 0):
+            out.append(Violation("C19", "add_lines", (), f"request {e} released: {len([a for a in adds if a['request_id'] == e])} add lines"))
+    # completed trips: one drop-off line
+    for vid, a in ctx.pre.vehicles.items():
+        s = a.vehicle_state
+        b = ctx.post.vehicles[vid].vehicle_state
+        if s.__class__.__name__ == "ServicingTrip" and len(s.route) > 0 and b.__class__.__name__ == "ServicingTrip" and len(b.route) == 0:
+            n = len([d for d in drops if d["request_id"] == s.request.id and d["vehicle_id"] == vid])
+            ctx.cov["c19:dropoff"] += 1
+            if n != 1:
+                out.append(Violation("C19", "dropoff_lines", (str(n),), f"vehicle {vid} completed the trip of {s.request.id}: {n} drop-off lines"))
+    for p in pickups:
+        ctx.cov["c19:pickup"] += 1
+        w = _hms(p.get("wait_time_seconds", ""))
+        if w is None:
+            out.append(Violation("C19", "wait_time_unparseable", (), f"pickup of {p['request_id']}: wait_time_seconds = {p.get('wait_time_seconds')!r}"))
+        elif not (0 <= w <= timeout + step):
+            out.append(Violation("C19", "wait_time_range", ("negative_wrapped" if w > 43200 else "too_long",), f"pickup of {p['request_id']}: wait_time_seconds = {p['wait_time_seconds']} ({w:.0f} s), allowed [0, {timeout + step}]"))
+        if w is not None and w == 0:
+            ctx.cov["c19:pickup_zero_wait"] += 1
+    return out
